@@ -1024,7 +1024,7 @@ def frame_method(it, f, name, args, kwargs, node, fr):
         c.merged_with = other
         if isinstance(other, Frame):
             for k in other.names():
-                if k not in c.cols:
+                if k not in c.cols and not str(k).startswith("<"):
                     c.cols[k] = other.cols[k]
                     if c.order is not None:
                         c.order.append(k)
